@@ -20,15 +20,15 @@ QUICK = [
     ("sum", "{3}", "2", "{0, 1, 2}"),
 ]
 THOROUGH = [
-    ("hashaff", "{1, 2, 3, 4}", "3", "{0, 1}"),
-    ("hashaff", "{5}", "3", "{0, 1}"),
-    ("hashaff", "{2, 3}", "4", "{0, 1}"),
-    ("pair_hashaff_sumaff", "{2, 3, 4}", "3", "{0, 1}"),
-    ("hashflip", "{2, 3, 4, 5}", "4", "{0, 1}"),
-    ("sumadd", "{2, 3, 4}", "3", "{0, 1, 2}"),
-    ("minadd", "{2, 3, 4}", "3", "{0, 1, 2}"),
-    ("maxadd", "{2, 3, 4}", "3", "{0, 1, 2}"),
-    ("pair_minadd_maxadd", "{3, 4}", "3", "{0, 2}"),
+    ("hashaff", "{1, 2, 3, 4}", "3", "{0, 1}", "FALSE"),
+    ("hashaff", "{2, 3}", "3", "{0, 1}"),
+    ("hashaff", "{5}", "2", "{0, 1}"),
+    ("pair_hashaff_sumaff", "{2, 3, 4}", "2", "{0, 1}"),
+    ("hashflip", "{2, 3, 4, 5}", "3", "{0, 1}"),
+    ("sumadd", "{2, 3, 4}", "2", "{0, 1, 2}"),
+    ("minadd", "{2, 3, 4}", "2", "{0, 1, 2}"),
+    ("maxadd", "{2, 3, 4}", "2", "{0, 1, 2}"),
+    ("pair_minadd_maxadd", "{3, 4}", "2", "{0, 2}"),
     ("pair_pair_min_max_sum", "{3, 4, 5}", "2", "{0, 1, 2}"),
     ("min", "{3, 5}", "2", "{0, 1, 2}"),
     ("max", "{3, 5}", "2", "{0, 1, 2}"),
